@@ -34,7 +34,7 @@ def _gen_side_objects(rng, tname, cols, others, want):
     return idxs, uqs, fks
 
 
-def gen_pair(rng, big=False, with_schema=False):
+def gen_pair(rng, big=False, with_schema=False, c06_class=False):
     """returns {"schemas": [...], "conn": [tbl...], "meta": [tbl...]} where a tbl is
     {schema,name,cols:[{name,ty,nullable}],idxs:[{name,unique,cols}],uqs:[{name,cols}],fks:[{name,col,ref,ondelete}]}"""
     ntab = rng.randint(1, 5 if big else 4)
@@ -165,6 +165,46 @@ def gen_pair(rng, big=False, with_schema=False):
                 seen.add(key)
                 outu.append(u)
             t["uqs"] = outu
+    if c06_class:
+        # the class of schema pairs of C06/C09: every constraint named, no dropped table still referenced
+        mkeys = {(t["schema"], t["name"]) for t in meta}
+        for side in (conn, meta):
+            for t in side:
+                tag = t["name"].replace("_", "")
+                for i, u in enumerate(t["uqs"]):
+                    if u["name"] is None:
+                        u["name"] = "uq_%s_u%d" % (tag, i)
+                for i, f in enumerate(t["fks"]):
+                    if f["name"] is None:
+                        f["name"] = "fk_%s_f%d" % (tag, i)
+        for t in conn:
+            t["fks"] = [f for f in t["fks"] if (t["schema"], f["ref"]) in mkeys]
+        # _compare_foreign_keys matches by signature and ignores names, so an FK *rename* is invisible to it;
+        # a pair in which the model renames an FK and gives its old name to a new FK is outside the class
+        # (the upgrade would try to create a second constraint of that name): same signature => same name
+        cmap = {(t["schema"], t["name"]): t for t in conn}
+        for m in meta:
+            c = cmap.get((m["schema"], m["name"]))
+            if c:
+                by_sig = {(f["col"], f["ref"], f["ondelete"]): f["name"] for f in c["fks"]}
+                for f in m["fks"]:
+                    f["name"] = by_sig.get((f["col"], f["ref"], f["ondelete"]), f["name"])
+        for side in (conn, meta):
+            for t in side:
+                seen, out = set(), []
+                for f in t["fks"]:
+                    if f["name"] in seen:
+                        continue
+                    seen.add(f["name"])
+                    out.append(f)
+                t["fks"] = out
+                seen, out = set(), []
+                for u in t["uqs"]:
+                    if u["name"] in seen or u["name"] in [i["name"] for i in t["idxs"]]:
+                        continue
+                    seen.add(u["name"])
+                    out.append(u)
+                t["uqs"] = out
     return {"schemas": schemas, "conn": conn, "meta": meta}
 
 
